@@ -1461,35 +1461,35 @@ class UTPM(Ring, RawAlgorithmsMixIn):
     def __neg__(self):
         return self.__class__.neg(self)
 
-    def __lt__(self, other):
-        if isinstance(other,self.__class__):
-            return numpy.all(self.data[0,...] < other.data[0,...])
+    def _zeroth_coefficients(self, other):
+        """ the zeroth coefficients of self and other, aligned as in the
+        arithmetic operators (the direction axis is not an array axis) """
+        if isinstance(other, UTPM):
+            a, b = UTPM._broadcast_arrays(self.data[:1], other.data[:1])
         else:
-            return numpy.all(self.data[0,...] < other)
+            other = numpy.asarray(other)
+            a, b = UTPM._broadcast_arrays(self.data[:1], other.reshape((1,1) + other.shape))
+        return a[0], b[0]
+
+    def __lt__(self, other):
+        a, b = self._zeroth_coefficients(other)
+        return numpy.all(a < b)
 
     def __le__(self, other):
-        if isinstance(other,self.__class__):
-            return numpy.all(self.data[0,...] <= other.data[0,...])
-        else:
-            return numpy.all(self.data[0,...] <= other)
+        a, b = self._zeroth_coefficients(other)
+        return numpy.all(a <= b)
 
     def __gt__(self, other):
-        if isinstance(other,self.__class__):
-            return numpy.all(self.data[0,...] > other.data[0,...])
-        else:
-            return numpy.all(self.data[0,...] > other)
+        a, b = self._zeroth_coefficients(other)
+        return numpy.all(a > b)
 
     def __ge__(self, other):
-        if isinstance(other,self.__class__):
-            return numpy.all(self.data[0,...] >= other.data[0,...])
-        else:
-            return numpy.all(self.data[0,...] >= other)
+        a, b = self._zeroth_coefficients(other)
+        return numpy.all(a >= b)
 
     def __eq__(self, other):
-        if isinstance(other,self.__class__):
-            return numpy.all(self.data[0,...] == other.data[0,...])
-        else:
-            return numpy.all(self.data[0,...] == other)
+        a, b = self._zeroth_coefficients(other)
+        return numpy.all(a == b)
 
     @classmethod
     def neg(cls, x, out = None):
